@@ -205,6 +205,7 @@ class Index:
         self.funcs: Dict[str, Func] = {}
         self.classes: Dict[str, Class] = {}
         self.parse_errors: List[str] = []
+        self.canon_stats = [0, 0]
         self._load()
         self._link_classes()
 
@@ -228,6 +229,10 @@ class Index:
                         raw = fh.read()
                     src = raw.decode("utf-8", errors="replace")
                     tree = ast.parse(src, filename=rel)
+                    from .canon import canonicalise
+                    nc, nn = canonicalise(tree)
+                    self.canon_stats[0] += nc
+                    self.canon_stats[1] += nn
                 except SyntaxError as e:
                     self.parse_errors.append("%s: %s" % (rel, e))
                     continue
